@@ -17,6 +17,8 @@ type qQuery struct {
 	cpu      int
 	tags     []string
 	shape    string
+	laterals []string // SQL of the left operands of the LATERAL joins in the query
+	with     string   // the WITH clause of the query
 }
 
 // selfCheckLiteral: the text the generator believes a string literal denotes is what the parser reads
@@ -69,20 +71,38 @@ func (g *qGen) genSelectJoin(w *qWorld, depth int) qQuery {
 			depth = 1
 		}
 	}
-	defer func() { w.ctes = nil }()
+	var rec *qCTE
+	if g.lateral && g.r.Intn(5) == 0 {
+		if rec = g.genRecCTE(w); rec != nil {
+			w.ctes = append(w.ctes, rec)
+			if with == "" {
+				with = "WITH " + rec.def + " "
+			} else {
+				// RECURSIVE belongs to the single table of the clause
+				with = strings.TrimSuffix(with, " ") + ", " + rec.def + " "
+			}
+			if depth > 2 {
+				depth = 2
+			}
+		}
+	}
+	defer func() { w.ctes, w.forceCTE = nil, nil }()
+	w.forceCTE = rec
 	src := g.source(w, depth)
 	for try := 0; src.card > 6000 && try < 6; try++ {
 		// the model joins by nested loops inside Coq: keep the number of row pairs it has to look at bounded
 		if depth > 1 {
 			depth--
 		}
+		w.forceCTE = rec
 		src = g.source(w, depth)
 	}
 	if src.card > 6000 {
+		w.forceCTE = rec
 		src = g.tableSrc(w)
 	}
 	usingShape := ""
-	if g.r.Intn(6) == 0 {
+	if rec == nil && g.r.Intn(6) == 0 {
 		if u, ok := g.usingSrc(w); ok {
 			src, usingShape = u, "+using"
 		}
@@ -105,9 +125,17 @@ func (g *qGen) genSelectJoin(w *qWorld, depth int) qQuery {
 		q.shape += "+cte"
 	}
 	q.shape += usingShape
+	if len(src.laterals) > 0 {
+		q.shape += "+lateral"
+		q.laterals, q.with = src.laterals, with
+	}
+	if rec != nil {
+		q.shape += "+recursive"
+	}
 	q.sql = with + "SELECT " + strings.Join(items, ", ") + " FROM " + src.sql + wh
 	q.coq = fmt.Sprintf("(Q (BSelect %s %s None None %s false) [] None None)", src.coq, cwh, coqList(citems))
-	if src.joins > 0 {
+	if src.joins > 0 || src.recursive {
+		// the order in which a recursive CTE delivers its rows is the model's, not the property's
 		q.mode = 1
 	}
 	return q
